@@ -93,9 +93,12 @@ func pgMsgTerm(v interface{}) string {
 	case fm.CopyFailMsg:
 		return "(MCopyFail " + vk.Hex([]byte(m.Error)) + ")"
 	case fm.DescribeMsg:
+		// DescType is string(msg[0]): the conversion of a byte to a string yields the UTF-8
+		// encoding of that code point (two bytes from 0x80 on); the observable is the code point
 		t := 0
-		if len(m.DescType) > 0 {
-			t = int(m.DescType[0])
+		for _, rn := range m.DescType {
+			t = int(rn)
+			break
 		}
 		return fmt.Sprintf("(MDescribe %d %s)", t, vk.Hex([]byte(m.Name)))
 	case fm.Execute:
